@@ -46,6 +46,7 @@ class Goals:
         self.order = []
         self.infos = {}
         self.libs = {}  # symbolic mode: name -> lib DAG (for the shim self-test)
+        self.custom = []
 
     def _reg(self, name, key):
         if name in self.keys:
@@ -120,6 +121,13 @@ class Goals:
     def info(self, k, v):
         self.infos[k] = v
 
+    def solver_goal(self, name, verdict, seconds=0.0, cex=None, detail="", key=None, twin=False):
+        """(symbolic backend) a goal the scenario put to z3 itself: verdict 'unsat' (holds) / 'sat' (+ cex theta) / 'unknown'"""
+        self._reg(name, key)
+        if twin:
+            self.twins.add(name)
+        self.custom.append(dict(name=name, kind="smt", verdict=verdict, seconds=round(seconds, 4), cex=cex or {}, detail=detail, problem="custom"))
+
 
 # ------------------------------------------------------------------------------------------------
 def _load_scenario(modname, fname):
@@ -149,7 +157,7 @@ def _worker(job):
         fn(B, G, **kwargs)
         t_exec = time.time() - t1
         prob.twin_names = set(G.twins)
-        results = prob.solve()
+        results = prob.solve() + G.custom
         # shim self-test data: library-side values at a random rational parameter point
         rnd = random.Random(seed * 31 + 5)
         allvars = sorted(S.variables([g.a for g in prob.goals] + [g.b for g in prob.goals if g.b is not None]),
